@@ -17,7 +17,7 @@ import re
 import json
 import os
 
-from .hir import pretty, pat_binds
+from .hir import pretty, pat_binds, npretty
 
 TABLE = os.path.join(os.path.dirname(os.path.abspath(__file__)), "names.json")
 
@@ -71,6 +71,7 @@ class _Walker:
         self.table = table        # sig -> name (None when recording)
         self.record = record      # dict to fill when generating
         self.ren = {}             # hid -> name
+        self.sigof = {}           # hid -> signature (structural identity of the binding, independent of any name)
         self.seen = {}            # sig -> count
         self.renamed = 0
 
@@ -86,6 +87,7 @@ class _Walker:
             k = self.seen.get(sig, 0)
             self.seen[sig] = k + 1
             sig = "%s#%d" % (sig, k)
+            self.sigof[b["hid"]] = sig
             if self.record is not None:
                 self.record[sig] = b["name"]
             elif self.table is not None and sig in self.table and b["name"] not in self.known:
@@ -111,8 +113,37 @@ class _Walker:
                 stack.extend(x)
 
     def text(self, n):
+        """rendering used inside signatures: locals are spelled by the signature of their binding, not by name, so that
+        one unrecognised name does not change the signatures of the bindings computed from it"""
+        if n is None:
+            return ""
         self.fix(n)
-        return pretty(n) if n is not None else ""
+        import copy
+        m = copy.deepcopy(n)
+        # closures and statement blocks inside the expression are identified by the calls they make, in order
+        # (so inserting a statement into such a body does not change the identity of the binding computed from it)
+        from .hir import calls as _calls
+        stack = [m]
+        while stack:
+            x = stack.pop()
+            if isinstance(x, dict):
+                if x.get("k") == "closure" and isinstance(x.get("body"), dict):
+                    x["body"] = {"k": "lit", "v": "<" + ",".join(sorted(c_.rsplit("::", 1)[-1] for _, c_ in _calls(x["body"]))) + ">"}
+                elif x.get("k") == "blk" and isinstance(x.get("b"), dict) and x["b"].get("stmts"):
+                    x["b"] = {"k": "block", "stmts": [], "tail": {"k": "lit", "v": "<" + ",".join(sorted(c_.rsplit("::", 1)[-1] for _, c_ in _calls(x))) + ">"}}
+                stack.extend(v for v in x.values() if isinstance(v, (dict, list)))
+            elif isinstance(x, list):
+                stack.extend(x)
+        stack = [m]
+        while stack:
+            x = stack.pop()
+            if isinstance(x, dict):
+                if x.get("k") in ("local", "bind") and x.get("hid") in self.sigof and x.get("name") != "self":
+                    x["name"] = "$" + self.sigof[x["hid"]][:10]
+                stack.extend(x.values())
+            elif isinstance(x, list):
+                stack.extend(x)
+        return npretty(m)
 
     def visit(self, n, clctx="free"):
         if n is None:
